@@ -261,6 +261,39 @@ def r01_5(prog, out):
             out.holds(key, prog.loc(rid), "the removed deliveries are returned to the caller")
         else:
             out.violation(key, prog.loc(rid), "deliveries removed from the tracker are not returned: the caller cannot requeue them")
+    # ... and what it hands back *is* what it removed: an element pushed to the result that is a copy of an entry merely read
+    # from the map (`get(..).clone()`), with the removal done elsewhere (another pass over the ids), can be returned twice for a
+    # repeated id or returned without ever being removed -- the caller requeues it while a delivery of it is still tracked
+    pm = prog.anchors.ty("PulledMessage")
+    READS = ("get", "get_mut", "get_key_value", "values", "values_mut", "iter", "iter_mut", "index", "first_key_value", "last_key_value")
+    for rid in removers:
+        bi = prog.info(rid)
+        loops = bi.cfg.loops()
+        rem_bbs = {e.bb for e in prog.effects(rid) if e.touches(R.t_messages) and e.kind in L.REMOVE_KINDS}
+        for bb, t in bi.calls(lambda c: c.path.endswith("Vec::<T, A>::push") or c.path.endswith("VecDeque::<T, A>::push_back")):
+            if len(t.args) < 2 or bi.body.operand_ty(t.args[1]) != pm:
+                continue
+            o = bi.trace(t.args[1])
+            if o.kind != "call":
+                continue
+            src = bi.call_at(o.data)
+            name = src.callee.path.split("::")[-1] if src.callee is not None else ""
+            recv = prog.receiver_origin(bi, src.args[0]) if src.args else None
+            on_map = recv is not None and R.t_messages in cells_of_origin(prog, bi, recv)
+            key = "returns-what-it-removed:%s" % prog.short(rid)
+            if not on_map:
+                continue
+            if name in READS:
+                inner = [blocks for h, blocks in loops.items() if bb in blocks]
+                scope = min(inner, key=len) if inner else set(bi.cfg.reach)
+                if rem_bbs & scope and inner:
+                    out.undecided(key, bi.loc(bb), "a copy of an entry read with %s() is returned and the entry is removed in the same iteration: equal only if both use the same key" % name)
+                else:
+                    out.violation(key, bi.loc(bb), "%s hands back a copy of an entry it only read (%s()), the removal happens in a separate pass: for a repeated ack id the same "
+                                  "delivery is returned (and requeued) twice, so one message is leased twice at the same time" % (prog.short(rid), name),
+                                  ["read at %s" % bi.loc(o.data), "pushed to the result at %s" % bi.loc(bb), "removals at %s" % sorted(bi.loc(x) for x in rem_bbs)[:3]])
+            elif name in ("remove", "remove_entry", "pop_first", "pop_last", "take"):
+                out.holds(key, bi.loc(bb), "the element handed back is the value the removal returned")
     # callers
     for bid, b in prog.facts.bodies.items():
         if b.crate != "lib":
@@ -295,6 +328,15 @@ def r01_5(prog, out):
                     out.violation(key, site or bi.loc(bb), why)
                 continue
             out.violation(key, bi.loc(bb), "deliveries removed from the outstanding set here are neither requeued nor acknowledged: they are lost")
+
+
+def cells_of_origin(prog, bi, origin):
+    """the (adt, field) cells on the access path of a traced origin"""
+    out = []
+    for p in getattr(origin, "path", ()) or ():
+        if isinstance(p, tuple) and len(p) >= 3 and p[0] == "f":
+            out.append((p[2], p[1]))
+    return out
 
 
 def expiry_chain(prog, R, sl, producer):
